@@ -37,12 +37,12 @@ func c13bRun(t *testing.T, p c13bPlan) (res vfResult) {
 		to.BufferResponses, to.MaxMemoryBufferSize = p.BufResp, 1000
 		opts := ServiceOptions{TLSRedirect: true}
 		opts.Normalize()
-		if err := r.DeployService("svc", []string{"ta0:80"}, opts, to, 5*time.Second, time.Second); err != nil {
+		if err := vfDeploy(r, "svc", []string{"ta0:80"}, opts, to, 5*time.Second, time.Second); err != nil {
 			res.failf("setup-failed", "deploy: %v", err)
 			return
 		}
 		synctest.Wait()
-		f := w.front(NewServer(&Config{HttpPort: 80, HttpsPort: 443}, r).buildHandler(), "front:80")
+		f := w.front(r, "front:80")
 		fills := "ABCDEFGH"
 		for round := 0; round < p.Rounds; round++ {
 			var wg sync.WaitGroup
